@@ -53,6 +53,7 @@ type c02Env struct {
 	polRules map[string]string   // policy name -> rules as written (generator bookkeeping only)
 	tokPols  map[string][]string // token label -> policy names
 	dead     map[string]bool     // tokens the generator revoked or expired (bias only, never used for the verdict)
+	cross    bool                 // with ns: policies and tokens live in the ROOT namespace (rules name "<ns>/…"), mounts and requests in ns
 	ns       *namespace.Namespace // non-nil: the whole case (mounts, policies, tokens, requests) lives in this child namespace
 	debug    bool
 }
@@ -170,13 +171,30 @@ func c02HCL(rules string) string {
 }
 
 func (e *c02Env) polPut(name, rules string) {
-	e.adm(logical.UpdateOperation, "sys/policies/acl/"+name, map[string]any{"policy": c02HCL(rules)})
+	if e.cross && e.ns != nil {
+		// the policy lives in the ROOT namespace and names the child namespace's paths in full
+		var rs []string
+		for _, r := range strings.Split(rules, ";") {
+			if r != "" {
+				rs = append(rs, e.ns.Path+strings.TrimPrefix(r, "/"))
+			}
+		}
+		e.inRoot(func() {
+			e.adm(logical.UpdateOperation, "sys/policies/acl/"+name, map[string]any{"policy": c02HCL(strings.Join(rs, ";"))})
+		})
+	} else {
+		e.adm(logical.UpdateOperation, "sys/policies/acl/"+name, map[string]any{"policy": c02HCL(rules)})
+	}
 	e.polRules[name] = rules
 	e.out.Op("ok", "pol-put", name, rules)
 }
 
 func (e *c02Env) polDel(name string) {
-	e.adm(logical.DeleteOperation, "sys/policies/acl/"+name, nil)
+	if e.cross {
+		e.inRoot(func() { e.adm(logical.DeleteOperation, "sys/policies/acl/"+name, nil) })
+	} else {
+		e.adm(logical.DeleteOperation, "sys/policies/acl/"+name, nil)
+	}
 	delete(e.polRules, name)
 	e.out.Op("ok", "pol-del", name)
 }
@@ -418,7 +436,11 @@ func (e *c02Env) backendOf(mount string) *vhRecBackend {
 	return nil
 }
 
-func (e *c02Env) req(form, op, rpath, remote string) {
+func (e *c02Env) req(form, op, rpath, remote string) { e.reqRes(form, op, rpath, remote) }
+
+// reqRes: one request, written as a `req` line; returns whether it was granted (answered without error or a backend
+// handler invoked)
+func (e *c02Env) reqRes(form, op, rpath, remote string) bool {
 	tok := e.tokString(form)
 	ctx := e.ctx()
 	type mnt struct {
@@ -505,6 +527,15 @@ func (e *c02Env) req(form, op, rpath, remote string) {
 		kind = "reqns"
 	}
 	e.out.Op(cls+"|"+j(calls)+"|"+j(mw)+"|"+j(bk), kind, form, op, vh.HexS(rpath), remote)
+	return cls == "ok" || len(calls) > 0
+}
+
+// inRoot runs f with the case's namespace switched off (administrative set-up made in the root namespace)
+func (e *c02Env) inRoot(f func()) {
+	old := e.ns
+	e.ns = nil
+	defer func() { e.ns = old }()
+	f()
 }
 
 // ------------------------------------------------------------------------------------------ generator
